@@ -297,11 +297,27 @@ func runC14(c *core.Ctx) {
 				wcall = in
 			}
 			if ret, ok := in.(*ssa.Return); ok && len(ret.Results) == 2 {
-				if ld, ok := core.Unwrap(ret.Results[1]).(*ssa.UnOp); ok {
-					if g, ok := ld.X.(*ssa.Global); ok && g.Name() == "ErrShortWrite" {
-						retShort = true
+				// directly, or merged with other outcomes of a step helper (φ)
+				seen := map[ssa.Value]bool{}
+				var walk func(v ssa.Value, d int)
+				walk = func(v ssa.Value, d int) {
+					v = core.Unwrap(v)
+					if seen[v] || d > 6 {
+						return
+					}
+					seen[v] = true
+					switch x := v.(type) {
+					case *ssa.UnOp:
+						if g, ok := x.X.(*ssa.Global); ok && g.Name() == "ErrShortWrite" {
+							retShort = true
+						}
+					case *ssa.Phi:
+						for _, ed := range x.Edges {
+							walk(ed, d+1)
+						}
 					}
 				}
+				walk(ret.Results[1], 0)
 			}
 		})
 		_ = short
